@@ -141,6 +141,7 @@ def run(ctx):
         prog = ctx.prog(cfg)
         c08._postorient(ctx, cfg, prog, gate.Leaves(prog), constructors=True)
         idkeep.check(ctx, cfg, prog, ctx.mod(cfg), 'IDENT', lambda o: o.rsplit('::', 1)[-1] == 'insert_transactional', 1)
+        idkeep.check_first_attempt(ctx, cfg, prog, ctx.mod(cfg), 'IDENT')
         import elemkeep
         ctx.rule('ELEMKEEP', 'batch de-duplication hands every input vertex on or drops it behind a duplicate verdict')
         elemkeep.check(ctx, cfg, prog, ctx.mod(cfg), 'ELEMKEEP')
